@@ -457,18 +457,19 @@ def calculate_structure_function(phase, nbOfPoint=None, step=None):
 
         Parameters:
             phase (ndarray, 2d): 2d-array
-            nbOfPoint (int): final size of the structure function vector. Default is phase.shape[1] / 4
+            nbOfPoint (int): final size of the structure function vector. Default is phase.shape[0] / 4
             step (int): step in pixel when computing the sf. (step * sampling_phase) gives the sf sampling in meters. Default is 1
 
         Returns:
             ndarray, float: values for the structure function of the data.
     '''
+    # the lags are shifts along the first dimension
     if nbOfPoint is None:
-        nbOfPoint = phase.shape[1] / 4
+        nbOfPoint = phase.shape[0] / 4
     if step is None:
         step = 1
     step = int(step)
-    xm = int(numpy.min([nbOfPoint, phase.shape[1] / step - 1]))
+    xm = int(numpy.min([nbOfPoint, phase.shape[0] / step - 1]))
     sf_x = numpy.zeros(xm)
     for i in range(step, xm * step, step):
         sf_x[int(i / step)] = numpy.mean((phase[0:-i, :] - phase[i:, :])**2)
